@@ -13,6 +13,8 @@ class ConstantExpressionEvaluator:
             value = self.eval_binop(expr)
         elif isinstance(expr, expressions.UnaryOperator):
             value = self.eval_unop(expr)
+        elif isinstance(expr, expressions.TernaryOperator):
+            value = self.eval_ternop(expr)
         elif isinstance(expr, expressions.VariableAccess):
             value = self.eval_variable_access(expr)
         elif isinstance(expr, expressions.NumericLiteral):
@@ -105,6 +107,8 @@ class ConstantExpressionEvaluator:
                 "~": lambda x: ~x,
             }
             value = op_map[expr.op](a)
+        elif expr.op == "!":
+            value = int(not self.eval_expr(expr.a))
         elif expr.op == "&":
             value = self.eval_take_address(expr.a)
         else:  # pragma: no cover
@@ -114,21 +118,41 @@ class ConstantExpressionEvaluator:
     def eval_take_address(self, expr):
         raise NotImplementedError("take address operator: &")
 
+    def eval_ternop(self, expr):
+        """Evaluate the conditional operator 'a ? b : c'."""
+        if self.eval_expr(expr.a):
+            value = self.eval_expr(expr.b)
+        else:
+            value = self.eval_expr(expr.c)
+        return value
+
     def eval_binop(self, expr):
         """Evaluate binary operator."""
-        lhs = self.eval_expr(expr.a)
-        rhs = self.eval_expr(expr.b)
         op = expr.op
+        lhs = self.eval_expr(expr.a)
+        # Short circuit logic, the right operand might not be evaluated:
+        if op == "&&":
+            return int(bool(lhs) and bool(self.eval_expr(expr.b)))
+        elif op == "||":
+            return int(bool(lhs) or bool(self.eval_expr(expr.b)))
+        rhs = self.eval_expr(expr.b)
 
         op_map = {
             "+": lambda x, y: x + y,
             "-": lambda x, y: x - y,
             "*": lambda x, y: x * y,
+            "<": lambda x, y: int(x < y),
+            ">": lambda x, y: int(x > y),
+            "<=": lambda x, y: int(x <= y),
+            ">=": lambda x, y: int(x >= y),
+            "==": lambda x, y: int(x == y),
+            "!=": lambda x, y: int(x != y),
         }
 
         # Ensure division is integer division:
         if expr.typ.is_integer:
             op_map["/"] = self.int_div
+            op_map["%"] = lambda x, y: x - y * self.int_div(x, y)
             op_map[">>"] = lambda x, y: x >> y
             op_map["<<"] = lambda x, y: x << y
             op_map["|"] = lambda x, y: x | y
